@@ -173,8 +173,30 @@ async fn episode(p: &EpParams) -> EpReport {
                 if !known_leases.is_empty() {
                     let k = rng.range(1, known_leases.len().min(3) as u64) as usize;
                     let ids: Vec<String> = known_leases.drain(..k).collect();
-                    let _ = Cx::new(&w, 2).modify(&s, &ids, 0).await;
-                    shape.push(format!("nack{}", k));
+                    // half of the time the nack travels inside a StreamingPull control message that
+                    // also extends another lease (per-ID seconds: extension first, nack second)
+                    let stream = waiters.iter().find_map(|wt| match wt {
+                        Waiter::Stream { h, .. } if h.is_reading() && h.request_side_open() => Some(h),
+                        _ => None,
+                    });
+                    match stream {
+                        Some(h) if rng.chance(1, 2) && !known_leases.is_empty() => {
+                            let ext = known_leases[0].clone();
+                            let mut mod_ids = vec![ext];
+                            let mut secs = vec![30];
+                            for id in &ids {
+                                mod_ids.push(id.clone());
+                                secs.push(0);
+                            }
+                            h.send(&[], &mod_ids, &secs);
+                            shape.push(format!("stream-nack{}", k));
+                            rep.inc("nacks_in_mixed_control_message");
+                        }
+                        _ => {
+                            let _ = Cx::new(&w, 2).modify(&s, &ids, 0).await;
+                            shape.push(format!("nack{}", k));
+                        }
+                    }
                     cause = "nack";
                 }
             }
